@@ -40,6 +40,23 @@ def fixed_value(k: int) -> float:
     return [0.125, 0.625, 0.375, 0.875][k % 4]
 
 
+# a second, categorical parameter whose legal choices include None and 0 (falsy values that a
+# "is it fixed?" test written with .get()/truthiness loses)
+CATS = (None, "a", 0)
+
+
+def fixed_cat(k: int) -> Any:
+    return CATS[k % 3]
+
+
+def fixed_pair(k: int) -> tuple:
+    return (fixed_value(k), fixed_cat(k))
+
+
+def suggest_both(t: Any) -> tuple:
+    return (t.suggest_float("x", 0, 1), t.suggest_categorical("c", CATS))
+
+
 class World:
     def __init__(self, config: str, n_workers: int, offset: bool = False) -> None:
         self.config = config
@@ -58,6 +75,7 @@ class World:
         self.n_enq = 0
         self.queued: dict[int, tuple] = {}  # trial number -> (fixed value, user attrs)
         self.asked: list = []
+        self.prefix_bad: list = []
 
     def worker_studies(self, n: int) -> list:
         if self.config == "jlist-procs":
@@ -72,11 +90,12 @@ class World:
     def enqueue(self, study: Any = None) -> None:
         k = self.n_enq
         self.n_enq += 1
-        params, attrs = {"x": fixed_value(k)}, {"q": k}
+        params, attrs = {"x": fixed_value(k), "c": fixed_cat(k)}, {"q": k}
         (study or self.study).enqueue_trial(params, user_attrs=attrs)
         # the caller goes on using its own dicts (next variant of a base configuration ...): what
         # was queued must not change with them
         params["x"] = 0.03125
+        params["c"] = "a" if params["c"] != "a" else 0
         params["junk"] = 1
         attrs["q"] = -1
 
@@ -85,24 +104,24 @@ class World:
         if op == "enq":
             before = len(s.get_trials(deepcopy=False))
             self.enqueue()
-            self.queued[before] = (fixed_value(self.n_enq - 1), {"q": self.n_enq - 1})
+            self.queued[before] = (fixed_pair(self.n_enq - 1), {"q": self.n_enq - 1})
         elif op == "add_wait":
             k = self.n_enq
             self.n_enq += 1
             before = len(s.get_trials(deepcopy=False))
-            sysattrs, attrs = {"fixed_params": {"x": fixed_value(k)}}, {"q": k}
+            sysattrs, attrs = {"fixed_params": {"x": fixed_value(k), "c": fixed_cat(k)}}, {"q": k}
             s.add_trial(optuna.trial.create_trial(state=TrialState.WAITING, system_attrs=sysattrs, user_attrs=attrs))
             sysattrs["fixed_params"]["x"] = 0.03125
             attrs["q"] = -1
-            self.queued[before] = (fixed_value(k), {"q": k})
+            self.queued[before] = (fixed_pair(k), {"q": k})
         elif op == "ask":
             t = s.ask()
-            v = t.suggest_float("x", 0, 1)
+            v = suggest_both(t)
             self.asked.append(t)
             if t.number in self.queued:
                 fv, ua = self.queued.pop(t.number)
-                if v != fv or t.user_attrs != ua:
-                    raise InternalError("sequential prefix already violates C04 (would be reported by the concurrent phase too)")
+                if v != fv or type(v[1]) is not type(fv[1]) or t.user_attrs != ua:
+                    self.prefix_bad.append(("queued-trial-got-other-value-than-enqueued", f"sequential prefix: trial {t.number}: {v} vs {fv}, attrs {t.user_attrs} vs {ua}"))
         elif op == "tell":
             if not self.asked:
                 return False
@@ -184,12 +203,12 @@ class Run:
                                 studies[i].get_trials(deepcopy=False, states=(TrialState.WAITING,))
                             elif step == "ask":
                                 t = studies[i].ask()
-                                v = t.suggest_float("x", 0, 1)
+                                v = suggest_both(t)
                                 got.append((i, t.number, t._trial_id, v, dict(t.user_attrs), inv))
                             else:
                                 k = w.n_enq
                                 w.n_enq += 1
-                                params, attrs = {"x": fixed_value(k)}, {"q": k}
+                                params, attrs = {"x": fixed_value(k), "c": fixed_cat(k)}, {"q": k}
                                 studies[i].enqueue_trial(params, user_attrs=attrs)
                                 params["x"] = 0.03125
                                 attrs["q"] = -1
@@ -210,12 +229,13 @@ class Run:
                 optuna.load_study(study_name="c04", storage=JournalStorage(ListBackend(w.env._shared))).get_trials(deepcopy=True)
             return {"got": got, "errors": errors, "final": [(t.number, t.state.name, dict(t.params), dict(t.user_attrs),
                                                               t.system_attrs.get("fixed_params")) for t in final],
-                    "queued_before": q_before, "enq_done": enq_done, "deadlock": sched.deadlock, "steps": sched.step}
+                    "queued_before": q_before, "enq_done": enq_done, "deadlock": sched.deadlock, "steps": sched.step,
+                    "prefix_bad": list(w.prefix_bad)}
         finally:
             w.close()
 
     def check(self, ex: dict) -> list[tuple[str, str]]:
-        bad = []
+        bad = list(ex.get("prefix_bad", []))
         if ex["deadlock"]:
             return [("deadlock", "")]
         final = {n: (st, params, ua, fp) for n, st, params, ua, fp in ex["final"]}
@@ -228,14 +248,15 @@ class Run:
                 bad.append(("trial-returned-by-two-asks", f"trial {num} workers {ws}"))
         for num, fp in queued.items():
             q = final[num][2].get("q")
-            if not isinstance(q, int) or q < 0 or fp.get("x") != fixed_value(q) or set(fp) != {"x"}:
+            if not isinstance(q, int) or q < 0 or fp.get("x") != fixed_value(q) or set(fp) != {"x", "c"} \
+                    or fp["c"] != fixed_cat(q) or type(fp["c"]) is not type(fixed_cat(q)):
                 bad.append(("queued-parameters-changed-after-enqueue-returned", f"trial {num}: fixed_params={fp} user_attrs={final[num][2]}"))
         for i, num, tid, v, ua, inv in ex["got"]:
             if num in queued:
-                fv = queued[num]["x"]
-                if v != fv:
+                fv = (queued[num]["x"], queued[num].get("c", "<missing>"))
+                if v != fv or type(v[1]) is not type(fv[1]):
                     bad.append(("queued-trial-got-other-value-than-enqueued", f"trial {num}: {v} vs {fv}"))
-                if final[num][1].get("x") != fv:
+                if (final[num][1].get("x"), final[num][1].get("c", "<missing>")) != fv:
                     bad.append(("stored-param-differs-from-enqueued", f"trial {num}"))
                 want_ua = final[num][2]
                 if "q" not in ua or ua != want_ua:
